@@ -42,6 +42,9 @@ mod repl_helper;
 mod targets;
 pub(crate) mod types;
 
+#[cfg(feature = "verif_hooks")]
+pub mod verif_hooks;
+
 // Re-exports
 pub use machine::Machine;
 pub use machine::config::*;
